@@ -318,7 +318,6 @@ def dft2(x, r, c, nk, nl):
     """
     # it would be interesting to compare performance with numba straight loops (easier to write)
     # GPU/C implementation should implement straight loops
-    nt = x.shape[-1]
     k, h = [
         v.flatten() for v in np.meshgrid(np.arange(nk), np.arange(nl), indexing="ij")
     ]
@@ -329,4 +328,4 @@ def dft2(x, r, c, nk, nl):
         * np.pi
         * (r[np.newaxis] * k[:, np.newaxis] + c[np.newaxis] * h[:, np.newaxis])
     )
-    return np.matmul(exp, x).reshape((nk, nl, nt))
+    return np.matmul(exp, x).reshape((nk, nl, *x.shape[1:]))
